@@ -112,6 +112,8 @@ def check_config(ctx, F, tag):
            any(n.endswith("::enable_select") for n in names) and any(n.endswith("::enable_select_zero") for n in names), "must-call",
            "calls on the built high bitvector: %s" % names, nontrivial=False)
 
+    import c19
+    c19.check_sparse_builder_enables(ctx, F, tag, "C16.R4")      # "converting yields the vector ..": the same supports on every accepted path
     # ---------------- R2 set / extend
     b = F.body(SB + "::set")
     calls = [(callee_name(t), t) for _, t in b.calls()]
@@ -200,6 +202,27 @@ def check_config(ctx, F, tag):
                 bad.append("%s %s at %s (guards %s)" % (kind, what.split("::")[-1], loc(sp), g))
         ctx.ob("C16.R2.try-set-mutations-guarded", fn + tag, loc(b.raw["span"]), bool(sites) and not bad, "guard-dominance",
                "%d mutations of the builder in try_set; not behind all range tests: %s" % (len(sites), bad[:3]))
+        # ... and the other half, "an out-of-order / out-of-range call is refused": try_set answers Ok only behind the same tests
+        # (a shortcut that accepts before testing -- an empty run, a repeated position -- accepts calls the property says are refused)
+        from guards import ok_blocks
+        oks = ok_blocks(b).get("Ok", [])
+        early = []
+        for bi in oks:
+            fs = facts_at(b, bi)
+            if fn.startswith(SB):
+                idx = ("param", 1, b.local_name(2))
+                g = [any(f[0] == "bool" and f[2] is False and m(Call(SB + "::is_full", Param(0)), f[1]) for f in fs),
+                     any(f[0] == "cmp" and f[1] == "Ge" and core(f[2]) == idx and m(Call(SB + "::next_index", Param(0)), f[3]) for f in fs),
+                     any(f[0] == "cmp" and f[1] == "Lt" and core(f[2]) == idx and m(Call(SB + "::universe", Param(0)), f[3]) for f in fs)]
+            else:
+                st_, ln = ("param", 1, b.local_name(2)), ("param", 2, b.local_name(3))
+                g = [any(f[0] == "cmp" and f[1] == "Ge" and core(f[2]) == st_ and m(Call(RB + "::len", Param(0)), f[3]) for f in fs),
+                     fact_add_fits(fs, st_, ln)]
+            if not all(g):
+                sp = [st["sp"] for st in b.blocks[bi]["stmts"] if st["s"] == "assign" and st["lhs"]["l"] == 0 and not st["lhs"]["p"]]
+                early.append("Ok built at %s (guards %s)" % (loc(sp[0]) if sp else "?", g))
+        ctx.ob("C16.R2.try-set-accepts-only-behind-range-tests", fn + tag, loc(b.raw["span"]), (bool(oks) and not early) if oks else None, "guard-dominance",
+               "%d Ok results in try_set; not behind all range tests: %s" % (len(oks), early[:3]))
 
     # ---------------- R3 co-mutation
     check_comutation(ctx, F, tag)
